@@ -625,9 +625,15 @@ def gen_filter_history(seed, idx):
             st = int(rng.integers(0, nx))
             ln = int(rng.integers(1, max(2, nx // 8)))
             mask[t, st:st + ln] = int(rng.choice([1, 2, 255, -1]))
+        # masked runs that reach the FIRST / LAST pixel of the trace (length 1..8), where interpolation has only one
+        # good neighbour in the trace; with the trace ends inside a band and traces of different levels
+        if rng.random() < 0.6:
+            mask[t, :int(rng.integers(1, 9))] = int(rng.choice([1, 4, -1]))
+        if rng.random() < 0.6:
+            mask[t, nx - int(rng.integers(1, 9)):] = int(rng.choice([1, 4, -1]))
         good = np.nonzero(mask[t] == 0)[0]
         if good.size < 2:
-            mask[t, :2] = 0
+            mask[t, nx // 2:nx // 2 + 2] = 0
     m = mask != 0
     # fluxes.  Every third history is on an integer grid (counts): all flux values integral and non-negative, so
     # that every call can hand its flux over in a seed-rotated numeric type (float64 or any integer width that fits)
@@ -635,10 +641,14 @@ def gen_filter_history(seed, idx):
     smooth = 2.0 + np.sin(np.outer(rng.uniform(0.5, 3.0, nt), pix / nx * 6.0) + rng.uniform(0, 6, (nt, 1)))
     x = smooth * rng.uniform(0.5, 20.0) + rng.normal(0, 0.3, (nt, nx)) + rng.choice([0.0, -5.0])
     y = rng.uniform(-3.0, 8.0, (nt, nx))
+    # every trace has its own level: a constant spectrum is constant PER TRACE (c_t); x and y differ by factors too
+    level = rng.permutation([1.0, 6.0, 0.2])[:nt]
+    x = x * level[:, None]
+    y = y * level[::-1][:, None]
     a, b = int(rng.choice([1, 2, 3, -1])), int(rng.choice([1, -2, 5]))
     zf = a * x + b * y
-    cval = float(rng.choice([1.0, 3.7, -2.25, 1e-17 * rng.uniform(1, 9), 12345.678]))
-    cf = np.full((nt, nx), cval)
+    cvals = float(rng.choice([1.0, 3.7, -2.25, 1e-17 * rng.uniform(1, 9), 12345.678])) * level
+    cf = np.repeat(cvals[:, None], nx, axis=1)
     xm = x.copy()
     garbage = rng.choice(['big', 'nan', 'rand'])
     xm[m] = {'big': 1e30, 'nan': np.nan, 'rand': 0.0}[garbage]
@@ -646,11 +656,12 @@ def gen_filter_history(seed, idx):
         xm[m] = rng.uniform(-1e6, 1e6, int(m.sum()))
     if intgrid:
         x = np.clip(np.rint(smooth * rng.uniform(5.0, 60.0) + rng.normal(0, 3.0, (nt, nx))), 0, 200)
+        x = np.rint(x * rng.permutation([1.0, 0.5, 0.1])[:nt][:, None])
         y = rng.integers(0, 51, (nt, nx)).astype(float)
         a, b = int(rng.choice([1, 2, 3])), int(rng.choice([1, 5]))
         zf = a * x + b * y
-        cval = float(rng.choice([1.0, 3.0, 7.0, 200.0]))
-        cf = np.full((nt, nx), cval)
+        cvals = rng.permutation([1.0, 3.0, 7.0, 200.0])[:nt]
+        cf = np.repeat(cvals[:, None], nx, axis=1)
         xm = x.copy()
         garbage = rng.choice(['big', 'rand'])
         xm[m] = 255.0 if garbage == 'big' else rng.integers(0, 256, int(m.sum())).astype(float)
@@ -687,7 +698,7 @@ def gen_filter_history(seed, idx):
         else:
             allp = [f[t] for t in range(nt)]
         meta = {'const': k == 3,
-                'cres': add_result(np.full((nt, 5), cval)) if k == 3 else 0,
+                'cres': add_result(np.repeat(cvals[:, None], 5, axis=1)) if k == 3 else 0,
                 'lo': add_result(np.repeat([[v.min()] for v in allp], 5, axis=1)),
                 'hi': add_result(np.repeat([[v.max()] for v in allp], 5, axis=1)),
                 'mlo': add_result(np.repeat([[v.min()] for v in gm], 5, axis=1)),
